@@ -268,7 +268,7 @@ def _setup_maketuple(engine, st):
 
 
 def _post_maketuple(engine, st, ctx, out):
-    cl = [("maketuple never raises, for any number of inputs", "EX", not isinstance(out, Raise), ["C15", "C18"])]
+    cl = [("maketuple never raises, for any number of inputs (a raise inside the last done-callback would leave the output pending forever)", "EX", not isinstance(out, Raise), ["C15", "C18", "C03"])]
     if not isinstance(out, Raise):
         tid = Val.id(out.t)
         cl.append(("maketuple keeps length and positions", "PC",
@@ -277,8 +277,8 @@ def _post_maketuple(engine, st, ctx, out):
 
 
 UNITS = [
-    Unit("maketuple", "futures.zip.maketuple", ["C15", "C18"], _setup_maketuple, _post_maketuple, cfg=_cfg_maketuple),
-    Unit("Zipper.handle_done", "futures.zip.Zipper.handle_done", ["C15", "C02", "C03", "C18"],
+    Unit("maketuple", "futures.zip.maketuple", ["C15", "C18", "C03"], _setup_maketuple, _post_maketuple, cfg=_cfg_maketuple),
+    Unit("Zipper.handle_done", "futures.zip.Zipper.handle_done", ["C15", "C02", "C03", "C18", "C01", "C04"],
          _setup_handle_done, _post_handle_done, cfg=_cfg, self_cls="Zipper"),
 ]
 
@@ -603,3 +603,6 @@ def _post_seq(engine, st, ctx, out):
 
 
 UNITS.append(Unit("f_sequence", "futures.sequence.f_sequence", ["C15"], _setup_seq, _post_seq, cfg=_cfg_seq))
+
+
+REPLAYS = [(p, "maketuple #", "replay/c15_maketuple_lengths.py") for p in ("C15", "C18", "C03")]
